@@ -134,6 +134,23 @@ def _impl(tier, seed, search):
         'SO3*SO3': (lambda: SO3.Rx(th) * SO3.Rz(a1), lambda t, u: SO3.Rx(t) * SO3.Rz(u), [th, a1]), 'SO3.inv': (lambda: SO3.Rx(th).inv(), lambda t: SO3.Rx(t).inv(), [th]),
         'SO3.R': (lambda: SO3.Rx(th).R, lambda t: SO3.Rx(t).R, [th]),
         'simplify': (lambda: (SE3.Rx(th) * SE3.Rx(-th)).simplify(), lambda t: SE3.Rx(t) * SE3.Rx(-t), [th]),
+        'simplify(SE3 with t)': (lambda: (SE3.Rx(th) * SE3(x, y, z) * SE3.Ry(a1)).simplify(), lambda t, x_, y_, z_, u: SE3.Rx(t) * SE3(x_, y_, z_) * SE3.Ry(u), [th, x, y, z, a1]),
+        'simplify(SE3(x,y,z))': (lambda: SE3(x, y, z).simplify(), lambda x_, y_, z_: SE3(x_, y_, z_), [x, y, z]),
+        'simplify(SO3)': (lambda: (SO3.Rx(th) * SO3.Ry(a1)).simplify(), lambda t, u: SO3.Rx(t) * SO3.Ry(u), [th, a1]),
+        # mixed lists: numbers first, symbols later (the symbol test must look at every element)
+        'transl([0,y,z])': (lambda: b.transl([0, y, z]), lambda y_, z_: b.transl([0, y_, z_]), [y, z]),
+        'transl([1.5,y,2])': (lambda: b.transl([1.5, y, 2]), lambda y_: b.transl([1.5, y_, 2]), [y]),
+        'trotx(t=[0,0,z])': (lambda: b.trotx(th, t=[0, 0, z]), lambda t, z_: b.trotx(t, t=[0, 0, z_]), [th, z]),
+        'eul2r([0,b,0])': (lambda: b.eul2r([0, a2, 0]), lambda q: b.eul2r([0, q, 0]), [a2]),
+        'SE3.Eul([0,b,0])': (lambda: SE3.Eul([0, a2, 0]), lambda q: SE3.Eul([0, q, 0]), [a2]),
+        'SE3.RPY([0,b,c])': (lambda: SE3.RPY([0, a2, a3]), lambda q, r: SE3.RPY([0, q, r]), [a2, a3]),
+        'delta2tr([0,0,z,a,0,0])': (lambda: b.delta2tr([0, 0, z, a1, 0, 0]), lambda z_, a_: b.delta2tr([0, 0, z_, a_, 0, 0]), [z, a1]),
+        'norm([1,y,2])': (lambda: b.norm([1, y, 2]), lambda y_: b.norm([1, y_, 2]), [y]), 'cross([1,0,z],[0,y,0])': (lambda: b.cross([1, 0, z], [0, y, 0]), lambda z_, y_: b.cross([1, 0, z_], [0, y_, 0]), [z, y]),
+        'conj([1,x,0,0])': (lambda: b.conj([1, x, 0, 0]), lambda x_: b.conj([1, x_, 0, 0]), [x]),
+        'qpow([1,x,0,0],2)': (lambda: b.qpow([1, x, 0, 0], 2), lambda x_: b.qpow([1, x_, 0, 0], 2), [x]),
+        'skew([0,y,z])': (lambda: b.skew([0, y, z]), lambda y_, z_: b.skew([0, y_, z_]), [y, z]),
+        'SE3*point([1,y,2])': (lambda: SE3.Rx(th) * [1, y, 2], lambda t, y_: SE3.Rx(t) * [1, y_, 2], [th, y]),
+        'transl((0,y,z)) tuple': (lambda: b.transl((0, y, z)), lambda y_, z_: b.transl((0, y_, z_)), [y, z]),
         'Twist3.Rx': (lambda: Twist3.Rx([th]).S, lambda t: Twist3.Rx([t]).S, [th]), 'Twist3.Ry': (lambda: Twist3.Ry([th]).S, lambda t: Twist3.Ry([t]).S, [th]), 'Twist3.Rz': (lambda: Twist3.Rz([th]).S, lambda t: Twist3.Rz([t]).S, [th]),
     }
     for name, (symcall, numcall, syms) in ENT.items():
